@@ -147,7 +147,7 @@ CLAIMED['C16'] = (
     'manifest supports the mode) and then finds it in flask.g; everything else is 404 / 400 without entering the body. Bounded '
     '(labelled): DRM option names are refused or accepted without assertion.',
     'Trusted: pyvc encoding. Router, uploads, corrupt MP4 payloads beyond the box header, and the Flask handlers not named above are not covered; '
-    'preconditions such as event interval >= 1 are not established by option parsing (known findings).',
+    'the event option ranges (interval >= 1, timescale >= 1, ...) are checked where the options are parsed (contract + lemma); values stored as stream defaults bypass that parser.',
     'contract-based deductive verification: safety and termination obligations of the functions under contract')
 
 CLAIMED['C12'] = (
